@@ -13,8 +13,7 @@ open Upnp
 
 /-! ### device tree -/
 
-/-- a device class tree as declared (`DEVICE_DEFINITION`, `SERVICES`, `EMBEDDED_DEVICES`) and also
-    the instantiated tree (after `build`) -/
+/-- the instantiated device tree (`device.services.values()`, `device.embedded_devices.values()`) -/
 inductive DevTree where
   | node (udn type : Str) (services : List Str) (children : List DevTree)
 deriving Repr, BEq, Inhabited
@@ -37,16 +36,27 @@ structure Svc where
   type : Str
 deriving Repr, BEq, DecidableEq
 
-/-- `{x.key: x for x in xs}.values()`: a later entry with the same key replaces the value at the
-    position of the first -/
-def dictValues {α : Type} (key : α → Str) (xs : List α) : List α :=
-  (PyDict.ofList (xs.map fun x => (key x, x))).map (·.2)
+/-- a device class tree as declared (`DEVICE_DEFINITION`, `SERVICES` with their service ids,
+    `EMBEDDED_DEVICES`) -/
+inductive ClsTree where
+  | node (udn type : Str) (services : List (Str × Str)) (children : List ClsTree)
+deriving Repr, Inhabited
+
+/-- the dicts of `UpnpDevice.__init__`: an item is stored under `key`; when that key is already
+    taken, under `key#alt` (service id / UDN) — which overwrites, in place, an earlier item stored
+    under the same `key#alt`.  Result: the dict's values in order. -/
+def keyedValues {α : Type} (key alt : α → Str) (xs : List α) : List α :=
+  (xs.foldl (fun (d : PyDict Str α) x =>
+      let k := key x
+      PyDict.set d (if PyDict.contains d k then k ++ '#' :: alt x else k) x) []).map (·.2)
 
 mutual
-/-- `UpnpServerDevice.__init__` / `UpnpDevice.__init__`: instantiate the class tree -/
-def build : DevTree → DevTree
-  | .node u t s cs => .node u t (dictValues id s) (dictValues DevTree.type (buildL cs))
-def buildL : List DevTree → List DevTree
+/-- `UpnpServerDevice.__init__` / `UpnpDevice.__init__`: instantiate the class tree; services and
+    embedded devices that share a type are all kept -/
+def build : ClsTree → DevTree
+  | .node u t s cs =>
+    .node u t ((keyedValues (·.1) (·.2) s).map (·.1)) (keyedValues DevTree.type DevTree.udn (buildL cs))
+def buildL : List ClsTree → List DevTree
   | [] => []
   | c :: cs => build c :: buildL cs
 end
